@@ -279,14 +279,14 @@ abbrev emitProg (cs : Bool) : Nat → List CSem2.Func → List Qbe.Func := Lower
 /-- **Semantic preservation for programs of 𝔽₂ functions** (in any IL program that has the emitted functions
     and starts with an empty stack).  `P`: the C program, well-formed (`wtP`: every function is, every call
     names a function of `P` with arguments of the parameter types and the declared return type); `K`: bound
-    on the number of variables of a function; `cfuel`: fuel of the C execution, which also bounds the depth
+    on the number of variables of a function plus the number of further array elements (`Func.extra`); `cfuel`: fuel of the C execution, which also bounds the depth
     of the calls — the IL stack (64 MiB, 64 bytes per activation and at most 32 per variable) must have room
     for `cfuel + 1` activations (`hroom`).  If the C execution of `entry(ρ)` returns `v` without undefined
     behaviour, the IL run of `entry` on representations of `ρ` returns a representation of `v` for every
     sufficiently large fuel: it does not get stuck, trap, overflow the stack or produce output. -/
 theorem lower3_correct_in (cs : Bool) (P : CSem3.Prog) (entry : String) (f : CSem2.Func) (ρ : List Int)
     (v : Int) (hwt : CSem3.wtP P = true) (hlk : CSem3.lookup P entry = some f)
-    (henv : EnvOK cs f.params ρ) (K : Nat) (hK : ∀ g ∈ P, g.params.length + g.locals.length ≤ K)
+    (henv : EnvOK cs f.params ρ) (K : Nat) (hK : ∀ g ∈ P, g.params.length + g.locals.length + g.extra ≤ K)
     (cfuel : Nat) (hroom : (cfuel + 1) * (64 + 32 * K) + 64 ≤ 67108864)
     (hev : CSem3.runP cs cfuel P entry ρ = some v) (p : Prog) (ext : Ext)
     (hfuncs : ∀ fn g, CSem3.lookup P fn = some g →
@@ -302,14 +302,15 @@ theorem lower3_correct_in (cs : Bool) (P : CSem3.Prog) (entry : String) (f : CSe
     · rename_i w h; cases hev; exact h
     · cases hev
   have hall : ∀ fn g, CSem2.lookup P fn = some g →
-      CSem2.WT g ∧ CSem2.callsOK P g.body = true ∧ g.vtys.length ≤ K := by
+      CSem2.WT g ∧ CSem2.callsOK P g.body = true ∧ g.vtys.length + g.extra ≤ K := by
     intro fn g hl
     have hmem : g ∈ P := List.mem_of_find?_eq_some hl
     have := List.all_eq_true.1 hwt g hmem
     simp only [Bool.and_eq_true] at this
     refine ⟨this.1, this.2, ?_⟩
     have := hK g hmem
-    simpa [CSem2.Func.vtys] using this
+    simp only [CSem2.Func.vtys, List.length_append]
+    exact this
   have hname : f.name = entry := by
     have := List.find?_some hlk
     simpa using this
@@ -317,7 +318,7 @@ theorem lower3_correct_in (cs : Bool) (P : CSem3.Prog) (entry : String) (f : CSe
   obtain ⟨hwf, hcalls, hKf⟩ := hall entry f hlk
   rw [← hname] at hfun ⊢
   refine LowerMach2.run_entry cs sid f ρ v hwf henv P p ext K cfuel hfuncs hall
-    (LowerMach2.frag_of_callsOK _ _ hcalls) hKf hfun hstack hsp ?_ cfuel (Or.inr (Nat.le_refl _)) hex
+    (LowerMach2.frag_of_callsOK _ _ _ hcalls (LowerMach2.wt_arrsOK hwf)) hKf hfun hstack hsp ?_ cfuel (Or.inr (Nat.le_refl _)) hex
   have h1 : (cfuel + 1) * (K + 1) ≤ (cfuel + 1) * (64 + 32 * K) := Nat.mul_le_mul_left _ (by omega)
   constructor
   · rw [hsp, stackTop_val, stackLimit_val]; omega
@@ -329,7 +330,7 @@ theorem lower3_correct_in (cs : Bool) (P : CSem3.Prog) (entry : String) (f : CSe
 /-- **Semantic preservation for programs**: the IL module consisting of all emitted functions of `P`. -/
 theorem lower3_correct (cs : Bool) (startid : Nat) (P : CSem3.Prog) (entry : String) (f : CSem2.Func)
     (ρ : List Int) (v : Int) (ext : Ext) (hwt : CSem3.wtP P = true) (hlk : CSem3.lookup P entry = some f)
-    (henv : EnvOK cs f.params ρ) (K : Nat) (hK : ∀ g ∈ P, g.params.length + g.locals.length ≤ K)
+    (henv : EnvOK cs f.params ρ) (K : Nat) (hK : ∀ g ∈ P, g.params.length + g.locals.length + g.extra ≤ K)
     (cfuel : Nat) (hroom : (cfuel + 1) * (64 + 32 * K) + 64 ≤ 67108864)
     (hev : CSem3.runP cs cfuel P entry ρ = some v) :
     ∃ fuel₀ r, RetRep f.ret v r ∧ ∀ fuel, fuel₀ ≤ fuel →
@@ -343,7 +344,7 @@ theorem lower3_correct (cs : Bool) (startid : Nat) (P : CSem3.Prog) (entry : Str
 /-- `lower3_correct` for entry functions returning `int`, `unsigned`, `long`, …: the outcome is an equation. -/
 theorem lower3_correct_exact (cs : Bool) (startid : Nat) (P : CSem3.Prog) (entry : String) (f : CSem2.Func)
     (ρ : List Int) (v : Int) (ext : Ext) (hwt : CSem3.wtP P = true) (hlk : CSem3.lookup P entry = some f)
-    (henv : EnvOK cs f.params ρ) (K : Nat) (hK : ∀ g ∈ P, g.params.length + g.locals.length ≤ K)
+    (henv : EnvOK cs f.params ρ) (K : Nat) (hK : ∀ g ∈ P, g.params.length + g.locals.length + g.extra ≤ K)
     (hret : 4 ≤ f.ret.size)
     (cfuel : Nat) (hroom : (cfuel + 1) * (64 + 32 * K) + 64 ≤ 67108864)
     (hev : CSem3.runP cs cfuel P entry ρ = some v) :
@@ -554,5 +555,55 @@ example : ∃ fuel₀, ∀ fuel, fuel₀ ≤ fuel →
       | 0, ht, hv => cases ht; cases hv; decide
       | 1, ht, hv => cases ht; cases hv; decide⟩
     (by decide) (by decide) 20 (by decide)
+
+/-! ## Stage E — local arrays
+
+  `T a[n];`, `x = a[i];`, `a[i] = e;` (`CSem2.Stmt.adecl/aload/astore`): an array is a variable with `n`
+  elements (`Func.lcnts`), its element 0 is the variable's own cell, the others are further cells of the
+  store; an access outside `0 ≤ i < n` or a read of an element without value is undefined.  The lowering
+  computes `(unsigned long)i * sizeof *a` and adds it to the address of the one allocation of `a`.  The
+  theorems `lower2_correct*` and `lower3_correct*` cover functions with such arrays (`WT` bounds the
+  number of further elements of a function by 10⁶). -/
+
+/-- `int f(int n) { int a[4]; int i; int s; a[0] = n; a[1] = n + 1; a[2] = n * 2; a[3] = 7; s = 0;
+      for (i = 0; i < 4; i++) { int x; x = a[i]; s = s + x; } return s; }` -/
+def ex10 : CSem2.Func :=
+  { name := "q", ret := .int, params := [.int], locals := [.int, .int, .int, .int], lcnts := [4, 1, 1, 1],
+    body :=
+      .seq (.adecl 1 .int 4 5)
+      (.seq (.decl 2 .int none)
+      (.seq (.decl 3 .int none)
+      (.seq (.astore 1 .int 4 5 (.const .int 0) (.param .int 0))
+      (.seq (.astore 1 .int 4 5 (.const .int 1) (.bin .add .int (.param .int 0) (.const .int 1)))
+      (.seq (.astore 1 .int 4 5 (.const .int 2) (.bin .mul .int (.param .int 0) (.const .int 2)))
+      (.seq (.astore 1 .int 4 5 (.const .int 3) (.const .int 7))
+      (.seq (.assign 3 .int (.const .int 0))
+      (.seq (.seq (.assign 2 .int (.const .int 0))
+        (.for_ (some (.bin .lt .int (.param .int 2) (.const .int 4))) (.incdec 2 .int true)
+          (.seq (.decl 4 .int none)
+          (.seq (.aload 4 .int 1 .int 4 5 (.param .int 2))
+                (.assign 3 .int (.bin .add .int (.param .int 3) (.param .int 4)))))))
+        (.ret (.param .int 3)))))))))) }
+example : CSem2.WT ex10 := by decide
+/-- 5 + 6 + 10 + 7 -/
+example : CSem2.runC true 60 ex10 [5] = some 28 := by decide
+/-- `a[4]` does not exist -/
+example : CSem2.runC true 60
+    { ex10 with body := .seq (.adecl 1 .int 4 5) (.seq (.decl 2 .int none) (.seq (.decl 3 .int none)
+      (.seq (.decl 4 .int none) (.seq (.aload 4 .int 1 .int 4 5 (.const .int 4)) (.ret (.param .int 4)))))) }
+    [5] = none := by decide
+
+/-- the theorem applied to `ex10` -/
+example : ∃ fuel₀, ∀ fuel, fuel₀ ≤ fuel →
+    runFunc (prog (Lower2.emitFunc true 0 ex10)) noExt "q" (argsOf ex10.params [5]) fuel =
+      ⟨#[], .ret (.scalar ⟨.w, 28⟩)⟩ := by
+  have hval : (argOf ex10.ret 28).2 = ⟨.w, 28⟩ := by decide
+  rw [← hval]
+  exact lower2_correct_exact true 0 ex10 [5] 28 noExt (by decide)
+    ⟨rfl, by
+      intro i t v ht hv
+      match i, ht, hv with
+      | 0, ht, hv => cases ht; cases hv; decide⟩
+    (by decide) (by decide) 60 (by decide)
 
 end CprocVerif.C01
